@@ -403,7 +403,7 @@ func closeOfParam(name string) func(ssa.Instruction) string {
 		if len(args) == 0 {
 			return ""
 		}
-		if isParam(name)(engine.Unwrap(args[0])) {
+		if isParam(name)(engine.Unwrap(args[0])) || isCellOfParam(engine.Unwrap(args[0]), name) {
 			return "close"
 		}
 		return ""
